@@ -272,9 +272,13 @@ func onRuleUpdate(rawResRulesMap map[string][]*Rule) (err error) {
 
 	newBreakers := make(map[string][]CircuitBreaker, len(validResRulesMap))
 	for res, resRules := range validResRulesMap {
-		newCbsOfRes := BuildResourceCircuitBreaker(res, resRules, breakersClone[res])
+		newCbsOfRes, builtRules := buildResourceCircuitBreaker(res, resRules, breakersClone[res])
 		if len(newCbsOfRes) > 0 {
 			newBreakers[res] = newCbsOfRes
+			// only the rules a breaker was built for are in force (a generator may decline a rule)
+			validResRulesMap[res] = builtRules
+		} else {
+			delete(validResRulesMap, res)
 		}
 	}
 
@@ -321,7 +325,7 @@ func onResourceRuleUpdate(res string, rawResRules []*Rule) (err error) {
 	oldResCbs = append(oldResCbs, breakers[res]...)
 	updateMux.RUnlock()
 
-	newCbsOfRes := BuildResourceCircuitBreaker(res, validResRules, oldResCbs)
+	newCbsOfRes, validResRules := buildResourceCircuitBreaker(res, validResRules, oldResCbs)
 
 	updateMux.Lock()
 	if len(newCbsOfRes) == 0 {
@@ -419,6 +423,14 @@ func ClearRulesOfResource(res string) error {
 
 // BuildResourceCircuitBreaker builds CircuitBreaker slice from rules. the resource of rules must be equals to res
 func BuildResourceCircuitBreaker(res string, rulesOfRes []*Rule, oldResCbs []CircuitBreaker) []CircuitBreaker {
+	cbs, _ := buildResourceCircuitBreaker(res, rulesOfRes, oldResCbs)
+	return cbs
+}
+
+// buildResourceCircuitBreaker also returns the rules a breaker exists for, in the order of the breakers:
+// a generator may decline a rule, and a rule without breaker is not in force.
+func buildResourceCircuitBreaker(res string, rulesOfRes []*Rule, oldResCbs []CircuitBreaker) ([]CircuitBreaker, []*Rule) {
+	builtRules := make([]*Rule, 0, len(rulesOfRes))
 	newCbsOfRes := make([]CircuitBreaker, 0, len(rulesOfRes))
 	// Old breakers that belong to a rule which is unchanged in the new list are reserved for it:
 	// they must not donate their statistic to a modified rule that happens to be listed earlier,
@@ -517,6 +529,7 @@ func BuildResourceCircuitBreaker(res string, rulesOfRes []*Rule, oldResCbs []Cir
 			// reuse the old cb
 			equalOldCb := oldResCbs[equalIdx]
 			newCbsOfRes = append(newCbsOfRes, equalOldCb)
+			builtRules = append(builtRules, r)
 			// The rule object in the breaker stays; the Id it goes by from now on is the new rule's.
 			if b, ok := equalOldCb.(interface{ setLoadedRuleId(string) }); ok {
 				b.setLoadedRuleId(r.Id)
@@ -540,7 +553,7 @@ func BuildResourceCircuitBreaker(res string, rulesOfRes []*Rule, oldResCbs []Cir
 			cb, e = generator(r, nil)
 		}
 		if cb == nil || e != nil {
-			logging.Warn("[CircuitBreaker BuildResourceCircuitBreaker] Ignoring the rule due to bad generated circuit breaker", "rule", r, "err", e.Error())
+			logging.Warn("[CircuitBreaker BuildResourceCircuitBreaker] Ignoring the rule due to bad generated circuit breaker", "rule", r, "err", e)
 			continue
 		}
 
@@ -548,8 +561,9 @@ func BuildResourceCircuitBreaker(res string, rulesOfRes []*Rule, oldResCbs []Cir
 			oldResCbs = append(oldResCbs[:reuseStatIdx], oldResCbs[reuseStatIdx+1:]...)
 		}
 		newCbsOfRes = append(newCbsOfRes, cb)
+		builtRules = append(builtRules, r)
 	}
-	return newCbsOfRes
+	return newCbsOfRes, builtRules
 }
 
 func IsValidRule(r *Rule) error {
